@@ -66,10 +66,126 @@ func c11TypedOne(x *runCtx, f *filler, wt wireType) {
 		x.r.Violate(rep.Violation{Kind: "oracle", Check: "C11.typed-reencode", Signature: "C11.typed:reencode-differs:" + wt.Name,
 			Input: wt.Name + " " + gen.Hex(b), Impl: gen.Hex(b2), PropertyFails: true})
 	}
+	c11LengthVariants(x, wt, b)
 	// the encoding must be canonical: the Lean strict decoder accepts it and reproduces it
 	x.c.add(pending{check: "C11.typed-canonical:" + wt.Name, line: "cbor.strict " + gen.Hex(b),
 		impl: fmt.Sprintf("ok %d %s", len(b), gen.Hex(b)), input: wt.Name + " " + gen.Hex(b),
 		onMismatch: func(string) (bool, string, string) {
 			return true, "C11.typed:not-canonical:" + wt.Name, "library encoding is not in canonical form"
 		}})
+}
+
+// c11LengthVariants: the valid encoding with one byte string one byte longer or shorter (the encoding
+// stays canonical CBOR). Whatever the library accepts of these it must reproduce when encoding the value it
+// decoded — a fixed-size array field (GUID, nonce) must therefore refuse a byte string of another length —
+// and the typed Lean model must decide and re-encode the same.
+func c11LengthVariants(x *runCtx, wt wireType, b []byte) {
+	done := 0
+	heads := map[int]bool{}
+	for _, h := range cborHeads(b) {
+		heads[h] = true
+	}
+	for i := 0; i+1 < len(b) && done < 4; i++ {
+		n := -1
+		if !heads[i] {
+			continue // a byte inside a string, not the head of an item
+		}
+		switch {
+		case b[i] == 0x50 && i+17 <= len(b):
+			n = 16
+		case b[i] == 0x54 && i+21 <= len(b): // 20 bytes
+			n = 20
+		}
+		if n < 0 {
+			continue
+		}
+		done++
+		longer := append(append(append([]byte{}, b[:i]...), b[i]+1), b[i+1:i+1+n]...)
+		longer = append(append(longer, 0xab), b[i+1+n:]...)
+		shorter := append(append(append([]byte{}, b[:i]...), b[i]-1), b[i+1:i+n]...)
+		shorter = append(shorter, b[i+1+n:]...)
+		for vi, v := range [][]byte{longer, shorter} {
+			which := []string{"longer", "shorter"}[vi]
+			ok, consumed, reenc, pan := decodeTypedImpl(wt, v)
+			h := gen.Hex(v)
+			x.r.Case("typed-len:"+wt.Name+":"+h, true, "typed-length-variant")
+			if pan != nil {
+				x.r.Violate(rep.Violation{Kind: "panic", Check: "C11.typed-length", Signature: "C11.typed:panic:" + wt.Name, Input: wt.Name + " " + h,
+					Impl: fmt.Sprint(pan), PropertyFails: true})
+				continue
+			}
+			if ok && consumed == len(v) && reenc != h {
+				x.r.Violate(rep.Violation{Kind: "oracle", Check: "C11.typed-length", Signature: "C11.typed:accepted-but-not-reproduced:" + which + ":" + wt.Name,
+					Input: wt.Name + " " + h, Impl: "decoded, then encoded as " + reenc, PropertyFails: true})
+			}
+			if typedModelled(wt.Name) && len(v) <= 4096 {
+				impl := "err"
+				if ok {
+					impl = fmt.Sprintf("ok %d %s", consumed, reenc)
+				}
+				x.c.add(pending{check: "C11.typed-length:" + wt.Name, line: "cbor.typed " + wt.Name + " " + h, impl: impl,
+					input: wt.Name + " " + h, norm: typedNorm})
+			}
+		}
+	}
+}
+
+// cborHeads returns the offsets of the heads of all data items of a well-formed definite-length
+// encoding (the contents of byte and text strings are not looked into).
+func cborHeads(b []byte) []int {
+	var out []int
+	var walk func(i int) int
+	walk = func(i int) int {
+		if i >= len(b) {
+			return -1
+		}
+		out = append(out, i)
+		mt, ai := b[i]>>5, b[i]&0x1f
+		var n uint64
+		j := i + 1
+		switch {
+		case ai < 24:
+			n = uint64(ai)
+		case ai == 24 && j+1 <= len(b):
+			n, j = uint64(b[j]), j+1
+		case ai == 25 && j+2 <= len(b):
+			n, j = uint64(b[j])<<8|uint64(b[j+1]), j+2
+		case ai == 26 && j+4 <= len(b):
+			n, j = uint64(b[j])<<24|uint64(b[j+1])<<16|uint64(b[j+2])<<8|uint64(b[j+3]), j+4
+		case ai == 27 && j+8 <= len(b):
+			for k := 0; k < 8; k++ {
+				n = n<<8 | uint64(b[j+k])
+			}
+			j += 8
+		default:
+			return -1
+		}
+		switch mt {
+		case 0, 1, 7:
+			return j
+		case 2, 3:
+			if uint64(len(b)-j) < n {
+				return -1
+			}
+			return j + int(n)
+		case 4, 5:
+			cnt := n
+			if mt == 5 {
+				cnt = 2 * n
+			}
+			for k := uint64(0); k < cnt; k++ {
+				if j = walk(j); j < 0 {
+					return -1
+				}
+			}
+			return j
+		case 6:
+			return walk(j)
+		}
+		return -1
+	}
+	for i := 0; i >= 0 && i < len(b); {
+		i = walk(i)
+	}
+	return out
 }
